@@ -98,6 +98,7 @@ class _SpyCommon(urwid.Widget):
 
     def mouse_event(self, size, event, button, col, row, focus):
         self.log.append(("mouse", self.sid, tuple(size), event, button, col, row, bool(focus)))
+        self.dims(size)  # a size of the wrong arity is rejected here exactly as in render / the cursor protocol
         return self.mret
 
 
